@@ -123,18 +123,24 @@ class SpotSys:
             self.end_reason = 'rejected-' + side
             return 'end'
         self.objs.append(o)
-        r = {'side': side, 'type': typ, 'q': qf, 'p': pf, 'live': True}
+        r = {'side': side, 'type': typ, 'q': qf, 'p': pf, 'live': True, 'st': 'ACTIVE'}
         self.ref.append(r)
         if side == 'buy':
             self.Q -= qf * pf
         if typ == 'MARKET':
-            from jesse.store import store
-            store.orders.execute_pending_market_orders()
-            self._ref_fill(r)
+            self.after_market_submit(r)
         return 'ok'
 
+    def after_market_submit(self, r):
+        from jesse.store import store
+        store.orders.execute_pending_market_orders()
+        self._ref_fill(r)
+
     def _ref_fill(self, r):
+        if not r['live']:
+            return
         r['live'] = False
+        r['st'] = 'EXECUTED'
         if r['side'] == 'buy':
             self.B += r['q'] * (1 - self.fee)
         else:
@@ -155,7 +161,10 @@ class SpotSys:
                         self._ref_cancel(o)
 
     def _ref_cancel(self, r):
+        if not r['live']:
+            return
         r['live'] = False
+        r['st'] = 'CANCELED'
         if r['side'] == 'buy':
             self.Q += r['q'] * r['p']
 
